@@ -1,6 +1,152 @@
 package main
 
-// thoroughExtras: deeper exploration for the thorough tier (platform matrix, mutant corpus); filled in per rule.
-func thoroughExtras(c *Check, a *Anchors) {}
+// Thorough tier: (a) the same rules under other GOOS/GOARCH so that build-tagged files are analysed too,
+// (b) a deeper loop bound for the path enumerations, (c) the corpus of behaviour-breaking changes of this
+// property (sub-agent seeded changes and own mutants) applied one at a time to a scratch copy of /repo's
+// current tree outside /repo and /verif — the check must report every one of them.
 
-func selftest(args []string) int { return 0 }
+import (
+	"encoding/json"
+	"fmt"
+	"os"
+	"os/exec"
+	"path/filepath"
+	"sort"
+	"strings"
+)
+
+// loopBound is the number of times a block may be re-entered by the path enumerator.
+var loopBoundExtra = 0
+
+func revisit() int { return 1 + loopBoundExtra }
+
+var platformMatrix = [][2]string{{"windows", "amd64"}, {"darwin", "arm64"}, {"linux", "386"}}
+
+func thoroughExtras(c *Check, a *Anchors) {
+	// (a) platform matrix
+	base := c.P
+	var platforms []string
+	for _, pf := range platformMatrix {
+		p2, err := Load(base.Dir, pf[0], pf[1])
+		if err != nil {
+			c.Errorf("thorough: cannot load %s/%s: %v", pf[0], pf[1], err)
+			continue
+		}
+		a2 := ResolveAnchors(p2)
+		if len(a2.Missing) > 0 {
+			c.Errorf("thorough: anchors unresolved under %s/%s: %v", pf[0], pf[1], a2.Missing)
+			continue
+		}
+		c.P = p2
+		registry[c.ID](c, a2)
+		platforms = append(platforms, pf[0]+"/"+pf[1])
+	}
+	c.P = base
+	c.Extra["platforms_analysed"] = append([]string{"host"}, platforms...)
+	// (b) deeper loop bound (only rules that enumerate paths are affected)
+	loopBoundExtra = 1
+	registry[c.ID](c, a)
+	loopBoundExtra = 0
+	c.Extra["loop_bound_blocks_revisited"] = 2
+	// (c) corpus
+	runCorpus(c)
+}
+
+type corpusItem struct {
+	Name  string
+	Patch string
+}
+
+func corpusFor(id string) []corpusItem {
+	var out []corpusItem
+	vd := verifDir()
+	seeded, _ := filepath.Glob(filepath.Join(vd, "seeded", "*", "patch.diff"))
+	for _, p := range seeded {
+		name := filepath.Base(filepath.Dir(p))
+		use := strings.HasPrefix(name, id+"-")
+		if b, err := os.ReadFile(filepath.Join(filepath.Dir(p), "meta.json")); err == nil {
+			var m struct {
+				Detection struct {
+					Violations map[string][]string `json:"violations"`
+				} `json:"detection"`
+			}
+			if json.Unmarshal(b, &m) == nil {
+				if _, ok := m.Detection.Violations[id]; ok {
+					use = true
+				}
+			}
+		}
+		if use {
+			out = append(out, corpusItem{name, p})
+		}
+	}
+	self, _ := filepath.Glob(filepath.Join(vd, "selftest", "mutants", id+"-*.patch"))
+	for _, p := range self {
+		out = append(out, corpusItem{strings.TrimSuffix(filepath.Base(p), ".patch"), p})
+	}
+	sort.Slice(out, func(i, j int) bool { return out[i].Name < out[j].Name })
+	return out
+}
+
+func runCorpus(c *Check) {
+	items := corpusFor(c.ID)
+	if len(items) == 0 {
+		c.Notef("thorough: no corpus item targets %s", c.ID)
+		return
+	}
+	self, err := os.Executable()
+	if err != nil {
+		c.Errorf("thorough: %v", err)
+		return
+	}
+	tmp, err := os.MkdirTemp("", "taskverif-corpus-")
+	if err != nil {
+		c.Errorf("thorough: %v", err)
+		return
+	}
+	defer os.RemoveAll(tmp)
+	killed, skipped := 0, 0
+	var results []string
+	for _, it := range items {
+		scratch := filepath.Join(tmp, "repo")
+		os.RemoveAll(scratch)
+		// copy the current working tree (without .git) — rebuilt from /repo on every run
+		cp := exec.Command("rsync", "-a", "--exclude", ".git", "--exclude", ".task", c.P.Dir+"/", scratch+"/")
+		if out, err := cp.CombinedOutput(); err != nil {
+			c.Errorf("thorough: copying the tree failed: %v %s", err, out)
+			return
+		}
+		ap := exec.Command("git", "apply", "--unsafe-paths", "--directory="+scratch, it.Patch)
+		ap.Dir = scratch
+		if err := exec.Command("patch", "-p1", "-s", "-d", scratch, "-i", it.Patch).Run(); err != nil {
+			skipped++
+			results = append(results, it.Name+": skipped (patch no longer applies to the current tree)")
+			continue
+		}
+		_ = ap
+		vd := filepath.Join(tmp, "verif")
+		os.RemoveAll(vd)
+		os.MkdirAll(filepath.Join(vd, "evidence"), 0o755)
+		if b, err := os.ReadFile(filepath.Join(verifDir(), "known_findings.json")); err == nil {
+			os.WriteFile(filepath.Join(vd, "known_findings.json"), b, 0o644)
+		}
+		run := exec.Command(self, "check", c.ID, "--tier", "quick")
+		run.Env = append(os.Environ(), "VERIF_REPO="+scratch, "VERIF_DIR="+vd, "VERIF_TIER=quick")
+		out, _ := run.CombinedOutput()
+		if strings.Contains(string(out), "VIOLATION property="+c.ID) {
+			killed++
+			results = append(results, it.Name+": reported")
+		} else {
+			results = append(results, it.Name+": NOT reported")
+			c.Errorf("thorough: corpus change %s (a confirmed violation of %s) is no longer reported by this check: the checker regressed", it.Name, c.ID)
+		}
+	}
+	c.Extra["corpus"] = map[string]any{"items": len(items), "reported": killed, "skipped": skipped, "results": results,
+		"how": "each change applied with patch(1) to an rsync copy of /repo's working tree under $TMPDIR, `taskverif check " + c.ID + "` run on the copy, copy removed"}
+	fmt.Fprintf(os.Stderr, "%s thorough: corpus %d/%d reported (%d skipped)\n", c.ID, killed, len(items)-skipped, skipped)
+}
+
+func selftest(args []string) int {
+	fmt.Println("use: taskverif check <ID> --tier thorough (runs the corpus of the property)")
+	return 0
+}
